@@ -19,6 +19,18 @@ Definition dot : ascii := "."%char.
 Definition tail (s : string) : string := match s with String _ r => r | _ => s end.
 Definition head (s : string) : ascii := match s with String a _ => a | _ => " "%char end.
 
+(* recipe n<id>.<L>.<seed>: a response header with ANCOUNT 1 and one NULL record
+   (owner root) with L octets of RDATA from a 16-bit congruential generator (cheap
+   to expand: these cases carry many octets); 23+L octets *)
+Fixpoint fill (n : nat) (x : N) : bytes :=
+  match n with
+  | O => []
+  | S k => let x' := N.land (5 * x + 1) 65535 in N.shiftr x' 8 :: fill k x'
+  end.
+Definition null_reply (id l seed : N) : bytes :=
+  (u16 id ++ [128; 0; 0; 0; 0; 1; 0; 0; 0; 0] ++ [0; 0; 10; 0; 1; 0; 0; 0; 0] ++ u16 l
+       ++ fill (N.to_nat l) (N.land seed 65535))%list.
+
 (* one item of a stream recipe *)
 Definition expand_item (s : string) : bytes :=
   let k := head s in
@@ -28,6 +40,7 @@ Definition expand_item (s : string) : bytes :=
   else if Ascii.eqb k "f"%char then (u16 (n 0%nat) ++ prng (N.to_nat (n 0%nat)) (n 1%nat))%list
   else if Ascii.eqb k "p"%char then prng (N.to_nat (n 0%nat)) (n 1%nat)
   else if Ascii.eqb k "m"%char then (u16 (n 1%nat) ++ u16 (n 0%nat) ++ prng (N.to_nat (n 1%nat - 2)) (n 2%nat))%list
+  else if Ascii.eqb k "n"%char then null_reply (n 0%nat) (n 1%nat) (n 2%nat)
   else [].
 Definition expand (s : string) : bytes := flat_map expand_item (split_on comma s).
 Definition sizes (s : string) : list nat := map undecn (split_on comma s).
@@ -128,6 +141,22 @@ Definition run_timed (args : list string) : string :=
   show_x (exchange_dgram_timed (fun _ => true) 512 (undec (arg args 0)) d
                                (timed_arrivals (arg args 4) (arg args 5) (arg args 6))).
 
+(* a session on one datagram Conn: args = Client.UDPSize, Conn.UDPSize at the start,
+   then one argument per exchange, qid;opt;datagrams (opt = none or the OPT size;
+   datagrams = recipe items, each one datagram).  Of the octet strings that can
+   occur, exactly the scripted datagrams themselves decode (no cut of one does;
+   the harness checks that of every datagram it scripts). *)
+Definition parse_x (s : string) : N * option N * list bytes :=
+  let f := split_on ";"%char s in
+  let opt := if String.eqb (nth 1 f "") "none" then None else Some (undec (nth 1 f "")) in
+  (undec (nth 0 f ""), opt, map expand_item (split_on comma (nth 2 f ""))).
+
+Definition run_session (args : list string) : string :=
+  let xs := map parse_x (skipn 2 args) in
+  let all := flat_map (fun x => snd x) xs in
+  join "," (map show_x (exchange_session (fun p => existsb (bytes_eqb p) all)
+                                         (undec (arg args 0)) (undec (arg args 1)) [] xs)).
+
 Definition run (fn : string) (args : list string) : string :=
   if String.eqb fn "readtcp" then
     show_msgs (serve_tcp (undecn (arg args 2)) (chunks (arg args 0) (arg args 1)))
@@ -146,4 +175,5 @@ Definition run (fn : string) (args : list string) : string :=
     show_x (exchange_dgram (decodes_of (arg args 3)) (undecn (arg args 1)) (undec (arg args 0))
                            (map (fun x => unhex (tail x)) (split_on comma (arg args 2))))
   else if String.eqb fn "xtimed" then run_timed args
+  else if String.eqb fn "xsession" then run_session args
   else "unknown-fn".
